@@ -501,6 +501,27 @@ func c26InfPow(n *c26Node) bool {
 	return false
 }
 
+// c26OffNaN recognises KF-C26-2: an offset of math.MinInt64 nanoseconds (what `offset NaN` becomes).
+func c26OffNaN(n *c26Node) bool {
+	if n == nil {
+		return false
+	}
+	if n.Off == math.MinInt64 {
+		return true
+	}
+	for _, c := range []*c26Node{n.VS, n.E, n.Param, n.L, n.Rt} {
+		if c26OffNaN(c) {
+			return true
+		}
+	}
+	for _, a := range n.Args {
+		if c26OffNaN(a) {
+			return true
+		}
+	}
+	return false
+}
+
 // c26Shape is a coarse class of the text for violation signatures.
 func c26Shape(n *c26Node) string {
 	if n == nil {
@@ -555,7 +576,7 @@ func TestVerifC26Syntax(t *testing.T) {
 		if !cs.Seq && (ci+int(verifh.Seed()))%2 == 0 {
 			text := comments.text(cs.Toks)
 			if e, ok := any1(cs, text, "commented"); ok {
-				if kind, msg := c26RoundTrip(e, widths[:2]); kind != "" && !(c26InfPow(c26Norm(e)) && strings.HasPrefix(kind, "print-")) {
+				if kind, msg := c26RoundTrip(e, widths[:2]); kind != "" && !((c26InfPow(c26Norm(e)) || c26OffNaN(c26Norm(e))) && strings.HasPrefix(kind, "print-")) {
 					viol("commented|"+kind, fmt.Sprintf("%q: %s", text, msg), cs, text)
 				}
 			}
@@ -574,6 +595,12 @@ func TestVerifC26Syntax(t *testing.T) {
 								continue
 							}
 							sig = "known-infpow|" + kind
+						} else if c26OffNaN(c26Norm(e)) && strings.HasPrefix(kind, "print-") {
+							kfSeen++
+							if kfSeen > 6 {
+								continue
+							}
+							sig = "known-offnan|" + kind
 						}
 						viol(sig, fmt.Sprintf("accepted token sequence %q: %s", text, msg), cs, text)
 					}
@@ -591,6 +618,11 @@ func TestVerifC26Syntax(t *testing.T) {
 			}
 			shape := c26Shape(want)
 			switch {
+			case ok && !cs.Ok && cs.Kf == "offnan" && c26OffNaN(c26Norm(e)):
+				kfSeen++
+				if kfSeen <= 6 {
+					viol("known-offnan|accepted", fmt.Sprintf("%q is accepted (offset NaN becomes %s)", text, e.String()), cs, text)
+				}
 			case ok && !cs.Ok:
 				viol(shape+"|accepted", fmt.Sprintf("%q is accepted (as %s) but the spec says it must be rejected", text, c26Dump(c26Norm(e))), cs, text)
 			case !ok && cs.Ok:
@@ -637,6 +669,12 @@ func TestVerifC26Syntax(t *testing.T) {
 								continue
 							}
 							sig = "known-infpow|" + kind
+						} else if c26OffNaN(c26Norm(me)) && strings.HasPrefix(kind, "print-") {
+							kfSeen++
+							if kfSeen > 6 {
+								continue
+							}
+							sig = "known-offnan|" + kind
 						}
 						viol(sig, fmt.Sprintf("mutation %v of %q = %q is accepted but: %s", m, text, mt, msg), cs, mt)
 					}
